@@ -28,8 +28,8 @@ CONFIGS = {
     "C08": {
         "level": "fault_enumeration",
         "rule": "one run = one synthetic ruleset (tie-heavy pools, <= 250 pre-terminals) x flags; U = uninterrupted stream through "
-                "pcfg_guesser.main(); histories = sequences of quit points (k-th pop) each followed by a --load cycle in a new process "
-                "image with only S.sav surviving; quick: 5 sampled histories of 1-4 cuts; thorough: every single cut k=1..|U| plus 8 "
+                "pcfg_guesser.main(); histories = sequences of quit points (k-th pop, or a quit already pending when the process starts / restores) each followed "
+                "by a --load cycle in a new process image with only S.sav surviving; quick: 5 sampled histories of 1-4 cuts; thorough: every single cut k=1..|U| plus 8 "
                 "sampled multi-cycle histories; plus retrain-between-quit-and-resume (uuid) probes; oracle RefResume (nothing needed is "
                 "lost, non-increasing, nothing above the saved probability, repeats only at exactly the saved probability); "
                 "non-trivial = world with >= 2 pre-terminals of exactly equal probability (so cuts land in tie groups); "
@@ -44,7 +44,7 @@ CONFIGS = {
         "level": "fault_enumeration",
         "rule": "one run = synthetic ruleset with an M structure + synthetic OMEN model whose listed levels hold 2..400 strings; "
                 "A = quit right after the j-th guess of a Markov level; B = --load in a new process image (empty memo table, "
-                "optimizer size drawn per process); tail = 0-3 further cycles (quit at a pop, inside the restored remainder, "
+                "optimizer size drawn per process); tail = 0-3 further cycles (quit at a pop, pending at start, inside the restored remainder, "
                 "inside a later level); quick: 4 sampled (level, j, tail) histories incl. j=1 and j=n; thorough: every j=1..n "
                 "(<= 80 per level) plus sampled tails; oracle: restored remainder = exactly the missing strings of the level "
                 "(multiset), never replayed by later cycles, rest of the run satisfies the C08 oracle; "
